@@ -30,6 +30,8 @@ type options struct {
 	only     string
 	sweep    string
 	lint     bool
+	noReplay bool
+	timeoutS int
 	dump     string
 	verbose  bool
 	replayD  string
@@ -46,6 +48,8 @@ func main() {
 	flag.IntVar(&o.seed, "seed", 0, "seed")
 	flag.IntVar(&o.workers, "workers", 6, "parallel obligations")
 	flag.StringVar(&o.only, "only", "", "substring filter on function name (debug)")
+	flag.BoolVar(&o.noReplay, "noreplay", false, "do not replay counterexamples (exploration)")
+	flag.IntVar(&o.timeoutS, "timeout", 0, "solver seconds per obligation (default by tier)")
 	flag.BoolVar(&o.lint, "lint", false, "list struct fields a contract may modify but never mentions in an ensures/checks clause")
 	flag.StringVar(&o.sweep, "sweep", "", "comma-separated package paths: give every function without a contract a safety-only contract (nopanic, pointer parameters non-nil) under property SWEEP (exploration, not a registered check)")
 	flag.StringVar(&o.dump, "dump", "", "dump SSA of function (pkgpath::name)")
@@ -337,6 +341,9 @@ func run(o *options) int {
 	timeout := 10
 	if o.tier == "thorough" {
 		timeout = 60
+	}
+	if o.timeoutS > 0 {
+		timeout = o.timeoutS
 	}
 	outDir := filepath.Join(o.outDir, o.prop)
 	_ = os.RemoveAll(outDir)
